@@ -102,7 +102,57 @@ def run(chk):
     compound_release(chk, prog, names, CK)
     kempston(chk, prog)
     mouse(chk, prog)
+    input_mod_sets(chk, prog, names)
     return chk.finish(EXPL)
+
+
+def input_mod_sets(chk, prog, names):
+    """T-NONINT/inputs: an input event changes its own device and nothing else.  Everything the functions reachable
+    from a public send_* method store to, borrow mutably or replace (local types) lies on the ownership path to the
+    matrix / joystick / mouse it feeds."""
+    chk.rule("T-NONINT/inputs", "mod set of every send_* API method is the device it feeds")
+    cg, fa = cc.scans(prog)
+    EM = prog.adt_path("rustzx_core", "Emulator")
+    KJ = prog.adt_path("rustzx_core", "KempstonJoy")
+    KM = prog.adt_path("rustzx_core", "KempstonMouse")
+    roles = cc.keyboard_roles(prog, names)
+    chain = lambda r: set(roles[r][2])
+    allf = lambda adt: set((adt, f["name"]) for f in prog.adt(adt)["variants"][0]["fields"])
+    base = {(EM, "controller")}
+    table = {
+        "send_key": base | chain("main"),
+        "send_sinclair_key": base | chain("sinclair"),
+        "send_compound_key": base | chain("extended") | chain("mask"),
+        "send_kempston_key": base | {(names.CTL, "kempston")} | allf(KJ),
+        "send_mouse_button": base | {(names.CTL, "mouse")} | allf(KM),
+        "send_mouse_wheel": base | {(names.CTL, "mouse")} | allf(KM),
+        "send_mouse_pos_diff": base | {(names.CTL, "mouse")} | allf(KM),
+    }
+    written = {}
+    for (adt, field), sites in list(fa.stores.items()) + list(fa.mutrefs.items()):
+        for s_ in sites:
+            written.setdefault(cc.strip_closure(s_.fn.path), set()).add((adt, field))
+    n = 0
+    for api, allowed in table.items():
+        try:
+            root = prog.fn_path("rustzx_core", "Emulator::<H>::" + api)
+        except KeyError:
+            chk.undecided_("T-NONINT/inputs/%s/anchor" % api, "Emulator::%s not found" % api)
+            continue
+        reach = set(cc.strip_closure(p) for p in cg.reachable([root]) if p in prog.fns and prog.fns[p].local)
+        mods, who = set(), {}
+        for p in reach:
+            for af in written.get(p, ()):
+                a = prog.adt(af[0])
+                if a and a.get("local") and not af[0].endswith("Iter"):
+                    mods.add(af)
+                    who.setdefault(af, p)
+        extra = mods - allowed
+        chk.check(not extra, "T-NONINT/inputs/%s" % api,
+                  "%s changes more than the device it feeds: %s" % (api, sorted("%s.%s (in %s)" % (a.split("::")[-1], f, who[(a, f)].split("::")[-1]) for a, f in extra)))
+        n += 1
+    chk.count("input-apis", n)
+    chk.floor("input-apis", 7)
 
 
 def senders(chk, prog, names, cell, keyv):
